@@ -93,7 +93,7 @@ func (w *srvWorld) probeC03() {
 			if m.Holding && m.Kind == mCall {
 				heldCall = true
 			}
-			if m.executable() && msg.Arrive >= 0 && m.Enter < 0 && m.Logged < 0 {
+			if m.executable() && msg.Arrive >= 0 && m.Enter < 0 && !(m.Kind == mRPCInfo && w.replySeq(m.ID) >= 0) {
 				waiting = true
 			}
 		}
@@ -122,6 +122,9 @@ func scenarioC06(r *Run) {
 	ok := w.drive(func() {
 		if why := w.progressOf(true); why != "" {
 			r.Fail("not-work-conserving", "at a quiescent point: %s", why)
+			return
+		}
+		if w.checkInfoOverLimit(); r.Failed() {
 			return
 		}
 		if w.running == w.K {
@@ -182,7 +185,7 @@ func (w *srvWorld) provenWaiter() *member {
 	lastStarted := -1
 	for _, msg := range w.msgs {
 		for _, m := range msg.Members {
-			if m.Enter >= 0 || m.Logged >= 0 {
+			if m.Enter >= 0 || (m.Kind == mRPCInfo && w.replySeq(m.ID) >= 0) {
 				lastStarted = msg.Idx
 			}
 		}
